@@ -169,4 +169,11 @@ theorem fund_no_call_when_covered (fq : FeeQuote) (hist : List Response) (tx : T
     (h0 : estimateDeficit tx fq = .ok 0) : fund fq hist tx calls = ⟨tx, calls, .ok⟩ := by
   cases hist <;> (unfold fund fundWith; simp only [h0])
 
+/-- The code computes the deficit in uint64 (`estimateDeficit64`, the definition the correspondence check runs): it is
+    the deficit of the theorems above whenever outputs plus fee stay below 2^64.  (Beyond that the sum wraps; the
+    transaction then claims more than 8000 times the coin supply — DESIGN §11.5.) -/
+theorem deficit_arithmetic_exact_below_2_64 (tx : Tx) (fq : FeeQuote)
+    (h : ∀ fee, estimateFeesPaid tx fq = .ok fee → totalOut tx + fee < 2 ^ 64) :
+    estimateDeficit64 tx fq = estimateDeficit tx fq := estimateDeficit64_eq tx fq h
+
 end GoBT.C12
